@@ -41,7 +41,9 @@ m = {
 for p in props:
     pid = p["id"]
     if pid in checks and pid in meta["claimed"] and pid in meta.get("integrated", []):
-        mm = meta["claimed"][pid]
+        mm = dict(meta["claimed"][pid])
+        if pid in meta.get("addenda", {}):
+            mm["text"] = mm["text"].rstrip() + " " + meta["addenda"][pid]
         m["checks"].append({
             "property_id": pid,
             "quick_cmd": "./check %s --tier quick" % pid,
